@@ -30,6 +30,8 @@ SPECS = [
     {'conv': 'shoc_standard', 'ny': 3, 'nx': 3, 'x_transposed': ['x_grid', 'x_centre']}, {'conv': 'shoc_standard', 'ny': 2, 'nx': 4, 'x_transposed': ['x_grid']},
     # a 0..360 longitude grid across the antimeridian: positions, centres and polygons all in the dataset's own longitudes
     {'conv': 'cf1d', 'ny': 2, 'nx': 5, 'origin': [165.0, -20.0], 'step': [10.0, 1.0]}, {'conv': 'cf1d', 'ny': 2, 'nx': 4, 'origin': [175.0, -20.0], 'step': [5.0, 1.0], 'bounds': 'vars'},
+    # a zero-based mesh without a start_index attribute (zero-based is the default) whose node 0 is used by no face
+    {'conv': 'ugrid', 'ny': 2, 'nx': 3, 'split': [[0, 1]], 'face_coords': True, 'orphan_first': True},
     # the face-node table stored (max nodes, faces), the Fortran / FVCOM layout, with mixed triangles and quadrilaterals
     {'conv': 'ugrid', 'ny': 2, 'nx': 3, 'split': [[0, 1]], 'face_coords': True, 'latitude_first': True},
     {'conv': 'ugrid', 'ny': 2, 'nx': 3, 'split': [[0, 1]], 'transposed': True}, {'conv': 'ugrid', 'ny': 3, 'nx': 2, 'split': [[1, 1]], 'transposed': True, 'start_index': 1},
@@ -43,7 +45,13 @@ def gen(tier, seed):
 
 def test(inp):
     spec = inp['spec']
-    ds = datasets.build(spec)
+    if spec.get('orphan_first'):
+        spec = {k: v for k, v in spec.items() if k != 'orphan_first'}
+        nx_, ny_, faces_ = datasets.quad_tri_mesh(spec['ny'], spec['nx'], split=tuple(map(tuple, spec.get('split', ()))))
+        mesh = (numpy.concatenate([[nx_.max() + 5.0], nx_]), numpy.concatenate([[ny_.max() + 5.0], ny_]), [[n + 1 for n in f] for f in faces_])
+        ds = datasets.ugrid(spec['ny'], spec['nx'], mesh=mesh, start_index=None, face_coords=True)
+    else:
+        ds = datasets.build(spec)
     ems = ds.ems
     with warnings.catch_warnings():
         warnings.simplefilter('ignore')
@@ -105,9 +113,9 @@ def test(inp):
     # other grid kinds: flattened data and selection agree
     for kind in ems.grid_kinds:
         name = getattr(kind, 'value', kind)
-        shape = shapes[name]
-        ksize = int(numpy.prod(shape))
         kdims = list(ems.grid_dimensions[kind])
+        shape = shapes[name] if not inp['spec'].get('orphan_first') or name != 'node' else tuple(ds.sizes[d] for d in kdims)
+        ksize = int(numpy.prod(shape))
         kv = xarray.DataArray(numpy.arange(ksize, dtype=float).reshape(shape), dims=kdims)
         rr = must(lambda: ems.ravel(kv), f'ravel on {name}')
         if not numpy.array_equal(rr.values, numpy.arange(ksize)):
